@@ -1618,11 +1618,15 @@ def schedule_passes(nng: Graph, arch: ArchitectureFeatures, options, scheduler_o
             cascaded_passes = []
             for pass_idx, ps in enumerate(sg.passes):
                 progress_print(verbose_progress, "Creating cascaded passes for CPU op", pass_idx, sg.passes)
+                # A pass can hold several operators (chained memory only operators): the tensors between them need memory too
+                ps_intermediates = [
+                    tens for op in ps.ops for tens in op.outputs if tens is not None and tens not in ps.outputs
+                ]
                 cps = CascadedPass(
                     ps.name,
                     SchedulingStrategy.WeightStream,
                     ps.inputs,
-                    [],
+                    ps_intermediates,
                     ps.outputs,
                     [ps],
                     ps.placement,
